@@ -115,7 +115,7 @@ static void grad_case (long idx, vf_rng *r)
 {
     int degenerate = !strcmp (vf.config, "degenerate") || (idx % 8) == 7;
     stops_t st; gen_stops (r, &st, degenerate);
-    geom_t g; g.kind = (int)(vf_next (r) % 3);
+    geom_t g; g.kind = (int)(vf_next (r) % 3); int touching = 0;
     g.p1.x = frand (r, -10, 40); g.p1.y = frand (r, -6, 14); g.p2.x = frand (r, -10, 50); g.p2.y = frand (r, -6, 14);
     g.r1 = frand (r, 0, 12); g.r2 = frand (r, 0, 40); g.angle = frand (r, -400, 400);
     if (vf_chance (r, 1, 4)) { g.p1.x &= ~0xffff; g.p1.y &= ~0xffff; g.p2.x &= ~0xffff; g.p2.y &= ~0xffff; }
@@ -123,6 +123,18 @@ static void grad_case (long idx, vf_rng *r)
     if (g.kind == 0 && vf_chance (r, 1, 8)) { g.p2.x = g.p1.x + (pixman_fixed_t)vf_range (r, -300, 300); g.p2.y = g.p1.y + (pixman_fixed_t)vf_range (r, 1, 300); }   /* sub-pixel gradient vector: |t| becomes huge */
     if (g.kind == 1 && vf_chance (r, 1, 10)) { g.p2 = g.p1; g.r2 = g.r1 + (pixman_fixed_t)vf_range (r, 1, 200); }
     if (g.kind == 1 && vf_chance (r, 1, 6)) g.r1 = 0;
+    /* circles that touch internally: |c2 - c1| == |r2 - r1| exactly, so the quadratic degenerates to a linear equation (a == 0) */
+    if (g.kind == 1 && !degenerate && vf_chance (r, 1, 6)) {
+        static const int tri[][3] = { { 1, 0, 1 }, { 0, 1, 1 }, { 3, 4, 5 }, { 4, 3, 5 }, { -1, 0, 1 }, { 0, -1, 1 }, { -3, 4, 5 }, { 5, 12, 13 } }; const int *t3 = tri[vf_next (r) % 8];
+        pixman_fixed_t k = (pixman_fixed_t)vf_range (r, 1, 8 * 65536) ; if (vf_chance (r, 1, 2)) k &= ~0xffff; if (k == 0) k = 65536;
+        g.r1 = vf_chance (r, 1, 5) ? 0 : frand (r, 0.5, 12);
+        g.p2.x = g.p1.x + t3[0] * k; g.p2.y = g.p1.y + t3[1] * k; g.r2 = g.r1 + t3[2] * k;
+        if (vf_chance (r, 1, 4)) { pixman_fixed_t tmp = g.r1; g.r1 = g.r2; g.r2 = tmp; pixman_point_fixed_t tp = g.p1; g.p1 = g.p2; g.p2 = tp; }     /* shrinking instead of growing */
+        touching = 1;
+    }
+    /* a long row across which t advances by less than 1/65536 per pixel but by many colour steps in total (nearly vertical gradient vector) */
+    int long_row = 0;
+    if (g.kind == 0 && !degenerate && vf_chance (r, 1, 10)) { g.p2.x = g.p1.x + (pixman_fixed_t)vf_range (r, -3 * 65536, 3 * 65536); g.p2.y = g.p1.y + (vf_chance (r, 1, 2) ? 1 : -1) * frand (r, 150, 500); long_row = 1; }
     if (degenerate) {
         switch (vf_next (r) % 6) { case 0: g.p2 = g.p1; break; case 1: g.r1 = g.r2 = 0; break; case 2: g.r2 = g.r1; g.p2 = g.p1; break; case 3: g.r1 = (pixman_fixed_t)vf_u32 (r); break;
         case 4: g.p1.x = (pixman_fixed_t)vf_u32 (r); g.p2.y = (pixman_fixed_t)vf_u32 (r); break; default: g.r2 = g.r1; break; }
@@ -142,6 +154,7 @@ static void grad_case (long idx, vf_rng *r)
     if (tk) pixman_image_set_transform (src, &tr);
     int wide = vf_chance (r, 1, 4);
     int w = (int)vf_range (r, 1, 48), h = (int)vf_range (r, 1, 5);
+    if (long_row) { w = (int)vf_range (r, 700, 4000); h = (int)vf_range (r, 1, 2); if (tk >= 2) { tk = 0; pixman_image_set_transform (src, NULL); } }
     vf_buf D; if (!vf_buf_alloc (&D, wide ? PIXMAN_rgba_float : PIXMAN_a8r8g8b8, w, h, 0, 0, vf_default_place (r))) { pixman_image_unref (src); return; }
     memset (D.base, 0x5a, D.bytes);
     pixman_image_t *dst = vf_buf_image (&D);
@@ -153,7 +166,7 @@ static void grad_case (long idx, vf_rng *r)
                   (unsigned)tr.matrix[2][0], (unsigned)tr.matrix[2][1], (unsigned)tr.matrix[2][2], sx, sy, wide ? "rgba_float" : "a8r8g8b8", w, h, degenerate ? " (degenerate)" : "");
     vf_inflight ("%s gradient repeat=%d stops=%d transform=%d dst=%s %dx%d%s", kn[g.kind], st.repeat, st.n, tk, wide ? "rgba_float" : "a8r8g8b8", w, h, degenerate ? " (degenerate)" : "");
     pixman_image_composite32 (PIXMAN_OP_SRC, src, NULL, dst, sx, sy, 0, 0, 0, 0, w, h);
-    vf_count (degenerate ? "degenerate_gradients" : "regular_gradients", 1);
+    vf_count (degenerate ? "degenerate_gradients" : "regular_gradients", 1); if (touching) vf_count ("radial_touching_circles", 1); if (long_row) vf_count ("linear_long_rows", 1);
     vf_label ("kind_repeat_transform", "%s/%d/%d%s", kn[g.kind], st.repeat, tk, degenerate ? "/degenerate" : "");
     if (!degenerate && !strcmp (vf.prop, "C13")) {
         long npx = 0, nskip = 0; int bad = 0;
